@@ -57,6 +57,41 @@ Range(c, v, lo, hi) == RangeFrom(c, v, lo, hi, 1)
 
 Desc(par, d) == {v \in 1..Len(par) : d \in Anc(par, v)}
 
+(***************************************************************************)
+(* Growth (gaps C05-3, C05-5, C01-4).                                      *)
+(* c.w: the keys written once more at d after the DeleteRange (through the  *)
+(* point write or the store's PutRange: a put over the version's own        *)
+(* tombstone); the value is d's.  Reads2 are the reads after that.          *)
+(* UReads: the same requests sent to an unversioned instance act on one     *)
+(* entry per key, in the order they are issued (node by node): the last     *)
+(* write or deletion decides at every version; its DeleteRange removes the  *)
+(* keys of the interval outright.                                           *)
+(***************************************************************************)
+Rewritten(c, j) == c.d # 0 /\ ~DRFails(c) /\ \E i \in 1..Len(c.w) : c.w[i] = j
+Ent2(c, j) ==
+    IF Rewritten(c, j)
+    THEN [k \in (DOMAIN Ent1(c, j)) \cup {c.d} |-> IF k = c.d THEN c.d ELSE Ent1(c, j)[k]]
+    ELSE Ent1(c, j)
+Reads2(c) == [v \in 1..Len(c.par) |-> [j \in 1..NK |-> ReadNode(c.par, Ent2(c, j), v)]]
+
+MaxOf(S) == CHOOSE x \in S : \A y \in S : y <= x
+\* the one entry of key j in an unversioned instance after all requests: node whose value it
+\* holds, 0 if none
+URead(c, j) ==
+    LET e == Ent0(c, j)
+        \* entries made after the DeleteRange at d (requests at d itself come before it) survive it
+        D == IF c.d # 0 /\ InInterval(j, c.lo, c.hi) THEN {k \in DOMAIN e : k > c.d} ELSE DOMAIN e
+        last == IF D = {} THEN 0 ELSE MaxOf(D) IN
+    IF \E i \in 1..Len(c.w) : c.w[i] = j /\ c.d # 0 /\ (last = 0 \/ last < c.d) THEN c.d
+    ELSE IF last = 0 THEN 0 ELSE IF e[last] = Tomb THEN 0 ELSE last
+UReads(c) == [j \in 1..NK |-> URead(c, j)]
+
+\* the rewrite touches only the rewritten keys, only at d and its descendants
+RewriteClaims(c) ==
+    /\ \A j \in 1..NK : Rewritten(c, j) => Reads2(c)[c.d][j] = c.d
+    /\ \A j \in 1..NK : ~Rewritten(c, j) => \A v \in 1..Len(c.par) : Reads2(c)[v][j] = Reads1(c)[v][j]
+    /\ \A v \in 1..Len(c.par) : (c.d = 0 \/ v \notin Desc(c.par, c.d)) => Reads2(c)[v] = Reads1(c)[v]
+
 \* Property C05, second sentence, on one case.
 DeleteRangeClaims(c) ==
     (c.d # 0 /\ ~DRFails(c)) =>
